@@ -39,7 +39,7 @@ def gen_plan(rng, tier):
         elif r < 0.55:
             op.update({"op": "boot_default", "samples": rng.choice([1, 7, 50, 200, 500, None]), "save": rng.random() < 0.7})
         elif r < 0.75:
-            op.update({"op": "boot_explicit", "samples": rng.choice([3, 20, 64, 150]), "seed": rng.getrandbits(30), "table": rng.choice(["uniform", "uniform", "identityish", "constant"]),
+            op.update({"op": "boot_explicit", "samples": rng.choice([3, 20, 64, 150, "n", "n", "n+1", "n-1"]), "seed": rng.getrandbits(30), "table": rng.choice(["uniform", "uniform", "identityish", "identityish", "constant"]),
                        "import": rng.random() < 0.7})
         elif r < 0.85:
             op.update({"op": "boot_roundtrip_default", "extra": rng.choice([0, 1, 10, 40])})
@@ -177,6 +177,8 @@ def execute(plan, ctx):
         elif kind == "boot_explicit":
             rr = random.Random(kernel.H("table", op["seed"]))
             ns = op["samples"]
+            if isinstance(ns, str):
+                ns = max(1, {"n": n, "n+1": n + 1, "n-1": n - 1}[ns])
             if op["table"] == "uniform":
                 R = np.array([[rr.randrange(n) for _ in range(n)] for _ in range(ns)], dtype=np.int64)
             elif op["table"] == "constant":
